@@ -58,10 +58,10 @@ Proof. exact try_new_calls. Qed.
 
 (* no row that is returned ever attributes to a signal a value the driver reported for a different signal: for EVERY driver answer *)
 Theorem C13_no_misattribution :
-  forall (G : gen) (tc : testcase) (outs0 : list out_entry) (oi : list out_index)
+  forall (G : gen) (tc : testcase) (outs0 : list out_entry) (nout : nat) (oi : list out_index)
   (outs : list out_entry) (c c' : ctx) (vals : list outval),
   build_output_indices tc outs0 = Ok oi ->
-  extract_output_values G tc oi outs c = (c', Ok vals) ->
+  extract_output_values G tc nout oi outs c = (c', Ok vals) ->
   Forall2
   (fun (idx : entry_index) (v : outval) =>
   match nth_error (tc_signals tc) (ei_signal_index idx) with
@@ -87,10 +87,9 @@ Theorem C13_layout_deviation_is_error :
   exists idx : entry_index,
   In idx (tc_expected_indices tc) /\
   nth_error (tc_signals tc) (ei_signal_index idx) = Some (oe_sig o) /\ is_virtual (oe_sig o) = false) ->
-  NoDup (map ei_signal_index (tc_expected_indices tc)) ->
-  NoDup (tc_signals tc) ->
   map oe_sig outs <> map oe_sig outs0 ->
-  forall (c c' : ctx) (vals : list outval), extract_output_values G tc oi outs c <> (c', Ok vals).
+  forall (c c' : ctx) (vals : list outval),
+  extract_output_values G tc (length outs0) oi outs c <> (c', Ok vals).
 Proof. exact layout_deviation_is_error. Qed.
 
 (* ... it yields one of these errors (never a panic) *)
@@ -104,33 +103,55 @@ Theorem C13_layout_deviation_error_kind :
   exists idx : entry_index,
   In idx (tc_expected_indices tc) /\
   nth_error (tc_signals tc) (ei_signal_index idx) = Some (oe_sig o) /\ is_virtual (oe_sig o) = false) ->
-  NoDup (map ei_signal_index (tc_expected_indices tc)) ->
-  NoDup (tc_signals tc) ->
   (forall (s : signal) (e : expr), In s (tc_signals tc) -> styp s = TyVirtual e -> wf_expr e) ->
   map oe_sig outs <> map oe_sig outs0 ->
   exists e : rterr,
-  snd (extract_output_values G tc oi outs c) = Err e /\
+  snd (extract_output_values G tc (length outs0) oi outs c) = Err e /\
   (e = RT_WrongNumberOfOutputs (N.of_nat (length outs0)) (N.of_nat (length outs)) \/
   e = RT_WrongOutputOrder \/ (exists x : xerr, e = RT_Expr x)).
 Proof. exact layout_deviation_error_kind. Qed.
 
+(* a different NUMBER of outputs than in the first answer is always an error, whatever the answers contain (after fix a7fa656) *)
+Theorem C13_length_deviation_is_error :
+  forall (G : gen) (tc : testcase) (outs0 : list out_entry) (oi : list out_index)
+  (outs : list out_entry) (c : ctx),
+  length outs <> length outs0 ->
+  extract_output_values G tc (length outs0) oi outs c =
+  (c, Err (RT_WrongNumberOfOutputs (N.of_nat (length outs0)) (N.of_nat (length outs)))).
+Proof. exact length_deviation_is_error. Qed.
+
+(* a returned row means: same length as the first answer, and every signal the test expects still sits at its position *)
+Theorem C13_tracked_positions_preserved :
+  forall (G : gen) (tc : testcase) (outs0 : list out_entry) (oi : list out_index)
+  (outs : list out_entry) (c c' : ctx) (vals : list outval),
+  build_output_indices tc outs0 = Ok oi ->
+  extract_output_values G tc (length outs0) oi outs c = (c', Ok vals) ->
+  length outs = length outs0 /\
+  (forall (idx : entry_index) (s : signal) (n : nat),
+  In idx (tc_expected_indices tc) ->
+  nth_error (tc_signals tc) (ei_signal_index idx) = Some s ->
+  is_virtual s = false ->
+  position (fun o : out_entry => signal_eqb (oe_sig o) s) outs0 = Some n ->
+  exists o : out_entry, nth_error outs n = Some o /\ oe_sig o = s).
+Proof. exact tracked_positions_preserved. Qed.
+
 Theorem C13_wrong_length_is_error :
-  forall (G : gen) (tc : testcase) (oi : list out_index) (outs : list out_entry) (c : ctx),
-  length outs <> num_outputs oi ->
-  extract_output_values G tc oi outs c =
-  (c, Err (RT_WrongNumberOfOutputs (N.of_nat (num_outputs oi)) (N.of_nat (length outs)))).
+  forall (G : gen) (tc : testcase) (nout : nat) (oi : list out_index) (outs : list out_entry) (c : ctx),
+  length outs <> nout ->
+  extract_output_values G tc nout oi outs c =
+  (c, Err (RT_WrongNumberOfOutputs (N.of_nat nout) (N.of_nat (length outs)))).
 Proof. exact wrong_length_is_error. Qed.
 
 (* for ANY first answer and ANY later answer: a row or one of three errors, never a panic (after fix d850e2a) *)
 Theorem C13_extract_never_panics :
-  forall (G : gen) (tc : testcase) (outs0 : list out_entry) (oi : list out_index)
+  forall (G : gen) (tc : testcase) (outs0 : list out_entry) (nout : nat) (oi : list out_index)
   (outs : list out_entry) (c : ctx),
   build_output_indices tc outs0 = Ok oi ->
   (forall (s : signal) (e : expr), In s (tc_signals tc) -> styp s = TyVirtual e -> wf_expr e) ->
-  match snd (extract_output_values G tc oi outs c) with
+  match snd (extract_output_values G tc nout oi outs c) with
   | Ok _ => True
   | Err e =>
-  e = RT_WrongNumberOfOutputs (N.of_nat (num_outputs oi)) (N.of_nat (length outs)) \/
+  e = RT_WrongNumberOfOutputs (N.of_nat nout) (N.of_nat (length outs)) \/
   e = RT_WrongOutputOrder \/ (exists x : xerr, e = RT_Expr x)
   | _ => False
   end.
